@@ -185,3 +185,25 @@ check(
     level_note="trusted: long double chain reference; the default coefficient vector is taken from design_multirate_fir() as the given h",
     assumptions=["custom h are symmetric with positive-dominant taps so that sum(h) is well away from zero"],
 )
+
+check(
+    "C09",
+    runs=[dict(harness="C09_threads", flavour="tsan", shards=6, timeout={"quick": 1800, "thorough": 14400}),
+          dict(harness="C09_threads", flavour="plain", shards=6, opts={"scale": "5"}, timeout={"quick": 1800, "thorough": 14400})],
+    rule=("rounds of 2..16 threads released from a barrier; each thread runs a seeded random mix of (a) solve() on plan objects SHARED by all "
+          "threads - FftPlan of every kind (small, radix-2, factor trees with prime / power-of-two / Bluestein leaves, direct prime, dft3), "
+          "FftPlanR (even-packed, odd composite, prime), IfftPlan, IfftPlanR, CztPlan - created in the main thread, which keeps using the "
+          "same sub-plans through its own cache, (b) thread-private fft/ifft/rfft/irfft over 15 lengths that hit and evict the per-thread "
+          "caches, xcorr, FftFilter/FirFilter instances, welch, resample, hilbert, kaiser, fir1, (c) replays of an rng(seed) call script "
+          "while other threads seed and draw. Oracles: zero ThreadSanitizer reports (tsan build), every result equal to the sequential "
+          "reference (1e-12 rel.), script values equal to the single-threaded ones. The yield hook is on in every second round; the plain "
+          "build repeats the workload with 5x the iterations. non-trivial = round in which calls overlapped on a shared plan."),
+    min_distinct={"quick": 32, "thorough": 400},
+    min_obs={"quick": {"overlapping_calls_on_shared_plans": 5000}, "thorough": {"overlapping_calls_on_shared_plans": 50000}},
+    technique="ThreadSanitizer (happens-before race detection) over a barrier-released stress workload with injected yields, plus sequential-vs-concurrent result comparison",
+    level_text=("The real library runs under ThreadSanitizer while 2..16 threads hammer shared plan objects of every kind and their own "
+                "caches; any race report or any result that differs from the sequential one is a violation. Held on the interleavings "
+                "the scheduler and the yield hook produced (overlap counts per plan kind are in the evidence)."),
+    level_note="trusted: gcc TSan's happens-before model; only interleavings whose conflicting accesses both executed are visible",
+    assumptions=["schedules are those produced by the kernel plus the optional yield points between transform phases"],
+)
